@@ -141,11 +141,15 @@ PROPS["C08"] = {
 }
 
 PROPS["C01"] = {
-    "parts": [{"name": "forward", "pkg": "c01", "chk": "chk_fwd"}],
-    "reasons": {"forward": FWD_REASONS},
-    "rule": "random call scripts (4 RPC kinds; 0-3 client messages then EOF/error/silence; 0-3 target messages with causal guards then EOF/status/silence; rare send/open failures; 45% a context event) each run 3x on the real ProxyForwarder / grpcbridge.Forwarder with scripted fake streams under seeded Gosched/sleep perturbation; fakes keep the proto.Message pointers and compare contents at the end; non-trivial = script with client items and target items",
+    "parts": [{"name": "forward", "pkg": "c01", "chk": "chk_fwd"},
+              {"name": "bytes", "pkg": "c01", "chk": "chk_c01_bytes", "args": ["bytes"]}],
+    "reasons": {"forward": FWD_REASONS,
+                "bytes": {"8": "the target did not receive exactly the bytes the client sent (a valid but non-canonical encoding was decoded and re-encoded on the way, or a message was lost / duplicated / reordered)",
+                          "9": "the client did not receive exactly the bytes the target sent",
+                          "10": "a fault-free call did not end with the target's OK status"}},
+    "rule": "random call scripts (4 RPC kinds; 0-3 client messages then EOF/error/silence; 0-3 target messages with causal guards then EOF/status/silence; rare send/open failures; 45% a context event) each run 3x on the real ProxyForwarder / grpcbridge.Forwarder with scripted fake streams under seeded Gosched/sleep perturbation; fakes keep the proto.Message pointers and compare contents at the end; non-trivial = script with client items and target items. bytes: the real ServiceRouter (holding a description that lists the called methods with their message types) and GRPCProxy over bufconn, a raw-codec gRPC client and a scripted target exchanging valid but non-canonical encodings (default values written out, a singular field twice, unknown fields before / after known ones, non-minimal varints and length prefixes, empty messages) on all four RPC kinds; received bytes = sent bytes, in order, both ways",
     "level_text": "Coq theorems over ALL scripts and ALL schedules of the forwarder LTS (induction on reachability, one case per atomic step): requests/responses seen are prefixes of what was sent, in order; non-streaming directions carry at most one message; and nothing is dropped: for every fault-free script (no context event, no adapter failure, conformant target) and every schedule, a returned call reports exactly the target's final status, has delivered ALL response messages, and - when the target ended after the whole request stream - all requests and the half-close. Tied to the code by running the real Forward on scripted fakes and checking that the observed outcome is one the model can produce (exhaustive exploration of the model, used only as validation) and satisfies the executable property.",
-    "level_note": "Trusted: Coq kernel, extraction, modelrun, Go harness fakes. Modelled, not verified: Go channel/goroutine semantics at the granularity of DESIGN appendix A.1; grpc-go behind AdaptedClientStream; byte identity of re-marshalled messages is protobuf-go's.",
+    "level_note": "Trusted: Coq kernel, extraction, modelrun, Go harness fakes. Modelled, not verified: Go channel/goroutine semantics at the granularity of DESIGN appendix A.1; grpc-go behind AdaptedClientStream; byte identity: the forwarder model treats messages as opaque; that proxied messages travel as raw bytes (the service router hands out the dummy method) is checked by the part bytes, that an empty message with unknown fields re-marshals to the same bytes is protobuf-go's.",
     "design_ref": "DESIGN.md §3 C01, appendix A.1",
     "assumptions": ["completeness on success / final-status theorems for fault-free scripts are stated as the executable property (reasons 6, 7) and checked on every run; their Coq proof is not finished (draft kept in work/wip)"],
 }
